@@ -25,6 +25,19 @@ type action struct {
 	O      string `json:"o"`      // create: the CN of the certificate body; revoke: ID.Owner
 	S      string `json:"s"`      // serial class
 	B      int    `json:"b"`      // create: which of the distinct bodies for (o, s)
+	Sp     string `json:"sp"`     // revoke: how the serial is spelled in the message ("" = canonical decimal of S)
+}
+
+// serialText is the text a request carries for the serial: the given spelling, or the canonical decimal.
+func serialText(class, sp string) (string, error) {
+	if sp != "" {
+		return sp, nil
+	}
+	n := serialOf(class)
+	if n == nil {
+		return "", fmt.Errorf("unknown serial class %q", class)
+	}
+	return n.String(), nil
 }
 
 type edge struct {
@@ -41,6 +54,7 @@ type step struct {
 	O      string  `json:"o"`
 	S      string  `json:"s"`
 	B      int     `json:"b"`
+	Sp     string  `json:"sp"`  // revoke: the spelling of the serial in the message ("" = canonical decimal)
 	Iss    string  `json:"iss"` // create: the account in the ISSUER name of the submitted certificate (information)
 	OK     bool    `json:"ok"`
 	Stage  string  `json:"stage"`
@@ -76,11 +90,11 @@ func (r *runner) exec(parent sdk.Context, a action) (txResult, sdk.Context, func
 		res, next, commit := r.c.runTx(parent, signer, msg, msgCreatePath)
 		return res, next, commit, nil
 	case "revoke":
-		n := serialOf(a.S)
-		if n == nil {
-			return txResult{}, parent, nop, fmt.Errorf("unknown serial class %q", a.S)
+		txt, err := serialText(a.S, a.Sp)
+		if err != nil {
+			return txResult{}, parent, nop, err
 		}
-		msg := &ctypes.MsgRevokeCertificate{ID: ctypes.CertificateID{Owner: r.u.addr[a.O].String(), Serial: n.String()}}
+		msg := &ctypes.MsgRevokeCertificate{ID: ctypes.CertificateID{Owner: r.u.addr[a.O].String(), Serial: txt}}
 		res, next, commit := r.c.runTx(parent, signer, msg, msgRevokePath)
 		return res, next, commit, nil
 	}
@@ -178,7 +192,7 @@ func (r *runner) graph(edges []edge, qmode string, pathsOut string) error {
 				return err
 			}
 			id := stateID(ents)
-			st := step{Ev: e.Act.K, Signer: e.Act.Signer, Mo: e.Act.Mo, O: e.Act.O, S: e.Act.S, B: e.Act.B, Iss: r.u.issuerName(e.Act),
+			st := step{Ev: e.Act.K, Signer: e.Act.Signer, Mo: e.Act.Mo, O: e.Act.O, S: e.Act.S, B: e.Act.B, Sp: e.Act.Sp, Iss: r.u.issuerName(e.Act),
 				OK: res.OK, Stage: res.Stage, Err: res.Err, Reg: ents, Sid: id}
 			_, seen := reps[id]
 			if !seen {
@@ -257,7 +271,7 @@ func (r *runner) paths(scripts [][]action) error {
 			if err != nil {
 				return err
 			}
-			st := step{Ev: a.K, Signer: a.Signer, Mo: a.Mo, O: a.O, S: a.S, B: a.B, Iss: r.u.issuerName(a), OK: res.OK, Stage: res.Stage,
+			st := step{Ev: a.K, Signer: a.Signer, Mo: a.Mo, O: a.O, S: a.S, B: a.B, Sp: a.Sp, Iss: r.u.issuerName(a), OK: res.OK, Stage: res.Stage,
 				Err: res.Err, Reg: ents, Sid: stateID(ents), HasQ: true, Q: r.c.queries(ctx, r.u, r.ps)}
 			if res.OK {
 				r.stats["accepted"]++
@@ -294,6 +308,7 @@ func Main(args []string) int {
 	owners := fs.String("owners", "A,B", "model owner ids")
 	serials := fs.String("serials", "z0,s1,s256,s2e64", "serial classes")
 	bodies := fs.Int("bodies", 2, "distinct self-issued certificates per (owner, serial)")
+	spellings := fs.String("spellings", "", `JSON list [{"sp": text, "rd": class|"other"|"invalid"}]: spelled lookups run with every query set`)
 	foreign := fs.String("foreign", "", "serial classes that also have body bodies+1: subject = owner, issuer = another owner")
 	pss := fs.String("pagesizes", "1,2,0", "page sizes; 0 = no pagination")
 	in := fs.String("in", "", "edges (graph) or scripts (paths) ndjson file")
@@ -310,6 +325,11 @@ func Main(args []string) int {
 	u, err := newUniverse(splitList(*owners), splitList(*serials), *bodies, splitList(*foreign))
 	if err != nil {
 		return fail(err)
+	}
+	if *spellings != "" {
+		if err := json.Unmarshal([]byte(*spellings), &u.Spellings); err != nil {
+			return fail(fmt.Errorf("--spellings: %v", err))
+		}
 	}
 	if mode == "info" {
 		b, _ := json.Marshal(u.info())
